@@ -127,6 +127,28 @@ func runC07(seed int64, n int, dir string, tier string) *Report {
 			}
 		}
 	}
+	// one per-call options value (no format of its own) handed to writers of different formats in turn:
+	// each writes its own format, whatever the value was used for before
+	{
+		d := randomDocument(g)
+		if len(d.NodeList.RootElements) > 1 {
+			d.NodeList.RootElements = d.NodeList.RootElements[:1]
+		}
+		shared := &writer.Options{}
+		for _, f := range []formats.Format{formats.CDX15JSON, formats.SPDX23JSON, formats.CDX14JSON, formats.SPDX23JSON, formats.CDX15JSON} {
+			want := serializeOnce(d, f)
+			var buf bytes.Buffer
+			err := writer.New(writer.WithFormat(f)).WriteStreamWithOptions(d, nopCloser{&buf}, shared)
+			rep.OracleEvals++
+			got := serOutcome{kind: "ok", out: canon.JSON(buf.Bytes())}
+			if err != nil {
+				got = serOutcome{kind: "err"}
+			}
+			if got.kind != want.kind || (got.kind == "ok" && got.out != want.out) {
+				rep.Fail(Failure{What: "serializing the same document again gave a different result", Detail: "with a per-call options value that an earlier write, by a writer of another format, had been given", Input: map[string]any{"format": string(f), "document": docJSON(d)}})
+			}
+		}
+	}
 	for i := 0; i < n+len(fixed); i++ {
 		var d *sbom.Document
 		if i >= n {
